@@ -53,6 +53,24 @@ NCols(inner, d, intercept) == Len(inner) + d + 1 - (IF intercept THEN 0 ELSE 1)
 NonNegative(r) == \A c \in DOMAIN r : ~RLt(r[c], Zero)
 PartitionOfUnity(lo, inner, hi, d, x) == ~Outside(x, lo, hi) => RSum(BsRow(lo, inner, hi, d, TRUE, "raise", x).row) = One
 
+(* ------------------------- vectors with nulls -------------------------- *)
+\* A vector is a sequence xs of values and a set `nulls` of positions holding a null (the value written there is immaterial).  A null is a
+\* missing ROW in every mode.  It is not a value outside the bounds: no extrapolation mode applies to it, and 'raise' - a verdict on the
+\* whole vector - is decided by the other positions alone (a null neither triggers the error nor shields an out-of-range value from it).
+NullRow == [st |-> "NA", row |-> <<>>]
+VecOutcome(rows, nulls) ==          \* rows[g] = BsRow(.., xs[g]); result [st, rows]: st = "ERROR" iff the call raises
+  LET rs == [g \in DOMAIN rows |-> IF g \in nulls THEN NullRow ELSE rows[g]]
+  IN [st |-> IF \E g \in DOMAIN rs : rs[g].st = "ERROR" THEN "ERROR" ELSE "OK", rows |-> rs]
+BsVec(lo, inner, hi, d, intercept, mode, xs, nulls) == VecOutcome([g \in DOMAIN xs |-> BsRow(lo, inner, hi, d, intercept, mode, xs[g])], nulls)
+\* The 'raise' guard as an algorithm on the whole vector.  "mask": some position holds a value that compares below lo or above hi (every
+\* comparison with a null is false).  "minmax" (a design error TLC must refute): min(xs) < lo or max(xs) > hi with the reductions of an
+\* array library, where one null makes min and max null and the two comparisons false.  "notin" (the opposite error, refuted too): some
+\* position is not known to lie inside, ~(lo <= x <= hi), which a null satisfies.
+RaiseGuard(variant, lo, hi, xs, nulls) ==
+  CASE variant = "minmax" -> (DOMAIN xs \cap nulls = {}) /\ \E g \in DOMAIN xs : Outside(xs[g], lo, hi)
+    [] variant = "notin"  -> \E g \in DOMAIN xs : g \in nulls \/ Outside(xs[g], lo, hi)
+    [] OTHER              -> \E g \in DOMAIN xs \ nulls : Outside(xs[g], lo, hi)
+
 (* ---------------------- cubic regression splines ---------------------- *)
 RowScale(r, f) == [j \in DOMAIN r |-> RDiv(r[j], f)]
 RowSubMul(r, p, f) == [j \in DOMAIN r |-> RSub(r[j], RMul(f, p[j]))]
